@@ -38,6 +38,15 @@ def add_late(sc, rng):
         if not only and rng.random() < 0.7:
             late.append(p)
     sc["late"] = sorted(late)
+    # late listeners also bring event-named convention callbacks for the events of multi-event
+    # transitions (they must run for their own event only, also when attached after the first firing)
+    multi = sorted({e for t in sc["trans"] if len(t["ev"]) > 1 for e in t["ev"]})
+    for p in late:
+        for e in multi:
+            for kind in (4, 5, 6):
+                if rng.random() < 0.4 and [kind, e] not in sc["provs"][p]:
+                    sc["provs"][p].append([kind, e])
+                    sc["tbl"].append([p, kind, e, [], {"a": [], "r": None}])
     if rng.random() < 0.3 and np_ > 3:
         # value-object listeners: some distinct listener objects compare and hash equal
         sc["eqgroups"] = {str(p): rng.randint(1, 2) for p in range(2, np_)}
